@@ -89,30 +89,106 @@ def spec_actions():
     return sorted(set(re.findall(r"^(Op\w+)\s*==", txt, flags=re.M)))
 
 
-def tlc_behaviours(ctx, cfgs, workers):
-    """Runs the TLC configurations concurrently; returns (script texts, tag classes, results, action counts, unjudged)."""
-    texts, tags = [], []
-    lock = threading.Lock()
+class Replayer:
+    """Replays behaviours in batches while TLC is still producing them (bounded memory, overlapped work)."""
+    BATCH = 40000
+
+    def __init__(self, ctx, exe):
+        import queue
+        self.ctx, self.exe = ctx, exe
+        self.lock = threading.Lock()
+        self.cur = []                 # (sid, text, tag)
+        self.nsid = 0
+        self.q = queue.Queue(maxsize=3)
+        self.acts = {}
+        self.unjudged = 0
+        self.byfam = {}
+        self.samples = {}
+        self.nscripts = self.nsteps = self.nfailing = 0
+        self.seen = {}
+        self.error = None
+        self.wall = 0.0
+        self.th = threading.Thread(target=self._work)
+        self.th.start()
+
+    def add(self, b):
+        with self.lock:
+            for a in b["post"]["acts"]:
+                self.acts[a] = self.acts.get(a, 0) + 1
+            if b["op"] != "parse":
+                self.unjudged += 1
+                return
+            self.nsid += 1
+            sid = self.nsid
+            tag = tag_class(b["input"]["cfg"])
+            k = tag.split(" ")[0]
+            self.byfam[k] = self.byfam.get(k, 0) + 1
+        text = x_c09.behaviour_script(sid, b)
+        batch = None
+        with self.lock:
+            if k not in self.samples or (len(text) > len(self.samples[k][1]) and len(text) < 1500):
+                self.samples[k] = (tag, text)
+            self.cur.append((sid, text, tag))
+            if len(self.cur) >= self.BATCH:
+                batch, self.cur = self.cur, []
+        if batch:
+            self.q.put(batch)
+
+    def finish(self):
+        with self.lock:
+            batch, self.cur = self.cur, []
+        if batch:
+            self.q.put(batch)
+        self.q.put(None)
+        self.th.join()
+        if self.error:
+            raise self.error
+
+    def _work(self):
+        n = 0
+        while True:
+            batch = self.q.get()
+            if batch is None:
+                return
+            if self.error:
+                continue
+            try:
+                t0 = time.time()
+                texts = [t for _, t, _ in batch]
+                tags = {sid: tg for sid, _, tg in batch}
+                bysid = {sid: i for i, (sid, _, _) in enumerate(batch)}
+                n += 1
+                fails, _, ns, nt = run_scripts(self.exe, [], texts, self.ctx.rundir, jobs=4, tag="beh%d" % n)
+                if ns != len(texts):
+                    raise Broken("replayed %d scripts of %d behaviours" % (ns, len(texts)))
+                self.nscripts += ns
+                self.nsteps += nt
+                self.nfailing += len(set(f.sid for f in fails))
+                for f in fails:
+                    key = fail_key(tags[f.sid], f)
+                    if key in self.seen:
+                        if key in self.ctx.violations:
+                            self.ctx.violations[key][2] += 1
+                        continue
+                    self.seen[key] = f
+                    i = bysid[f.sid]
+                    self.ctx.report(key, "%s at step %d (%s) exp=%s got=%s %s" % (f.kind, f.step, f.op, f.exp[:300], f.got[:300], f.sig),
+                                    {"harness_args": [], "script_text": texts[i], "failure": repr(f), "detail": f.detail,
+                                     "context_script_text": (texts[i - 4] if i >= 4 else "") + texts[i]})
+                self.wall += time.time() - t0
+            except Exception as e:          # noqa
+                self.error = e
+
+
+def tlc_behaviours(ctx, cfgs, workers, rp):
+    """Runs the TLC configurations concurrently, feeding every emitted behaviour to the replayer."""
     results = {}
     errors = []
-    acts = {}
-    unjudged = [0]
 
     def one(cfg, w):
-        def on_beh(b):
-            with lock:
-                for a in b["post"]["acts"]:
-                    acts[a] = acts.get(a, 0) + 1
-                if b["op"] != "parse":
-                    unjudged[0] += 1
-                    return
-                sid = len(texts) + 1
-                texts.append(None)
-                tags.append(tag_class(b["input"]["cfg"]))
-            texts[sid - 1] = x_c09.behaviour_script(sid, b)
         try:
-            results[cfg] = run_tlc("MC_ConfParse.tla", cfg, ctx.rundir, on_edge=on_beh, workers=w, env=JAVA_ENV, coverage=False,
-                                   timeout=2400 if ctx.tier == "thorough" else 900)
+            results[cfg] = run_tlc("MC_ConfParse.tla", cfg, ctx.rundir, on_edge=rp.add, workers=w, env=JAVA_ENV, coverage=False,
+                                   timeout=3000 if ctx.tier == "thorough" else 900)
         except Exception as e:          # noqa
             errors.append(e)
     ths = [threading.Thread(target=one, args=(c, w)) for c, w in zip(cfgs, workers)]
@@ -122,7 +198,7 @@ def tlc_behaviours(ctx, cfgs, workers):
         t.join()
     if errors:
         raise errors[0]
-    return texts, tags, results, acts, unjudged[0]
+    return results
 
 
 def asbuilt_demo(ctx):
@@ -205,7 +281,7 @@ def tree_script(sid, cfg):
 def trace_validation(ctx, exe):
     from vlib import trace
     rnd = random.Random(ctx.seed)
-    n = 300 if ctx.tier == "quick" else 6000
+    n = 300 if ctx.tier == "quick" else 3000
     cfgs = [gen_tree(rnd, big=(k % 4 == 0)) for k in range(n)]
     scripts = [tree_script(k + 1, c) for k, c in enumerate(cfgs)]
     texts = [s for s, _ in scripts]
@@ -251,9 +327,15 @@ def trace_validation(ctx, exe):
 
 
 def run(ctx):
+    # the reference operators recurse once per line of a file: every TLC started by this check (also through vlib.trace) gets a deep stack
+    os.environ["JAVA_TOOL_OPTIONS"] = JAVA_ENV["JAVA_TOOL_OPTIONS"]
     exe = x_c09.harness(ctx)
     t = ctx.tier
-    texts, tags, results, acts, unjudged = tlc_behaviours(ctx, ["ConfParse_%s_enum.cfg" % t, "ConfParse_%s_fam.cfg" % t], [3, 2])
+    rp = Replayer(ctx, exe)
+    try:
+        results = tlc_behaviours(ctx, ["ConfParse_%s_enum.cfg" % t, "ConfParse_%s_fam.cfg" % t], [3, 2], rp)
+    finally:
+        rp.finish()
     for cfg, res in sorted(results.items()):
         ctx.add("states", res.distinct)
         ctx.add("transitions", res.generated)
@@ -265,49 +347,27 @@ def run(ctx):
             ctx.report("spec:%s" % cfg, "TLC reports a violated property of the specification itself: %s" % (res.violation or "")[:600],
                        {"tlc": res.violation, "cfg": cfg})
     # vacuity guard: every action of the module is taken in at least one emitted behaviour (ghost variable `acts`)
-    ctx.cov["actions_taken_in_behaviours"] = {a: acts.get(a, 0) for a in spec_actions()}
-    ctx.cov["behaviours_outside_universe_not_judged"] = unjudged
-    log("TLC done: %d behaviours, %.0fs" % (len(texts), time.time() - ctx.t0))
-    unt = sorted(a for a in spec_actions() if not acts.get(a))
+    ctx.cov["actions_taken_in_behaviours"] = {a: rp.acts.get(a, 0) for a in spec_actions()}
+    ctx.cov["behaviours_outside_universe_not_judged"] = rp.unjudged
+    log("TLC + replay done: %d behaviours, %d failing, %.0fs" % (rp.nsid, rp.nfailing, time.time() - ctx.t0))
+    unt = sorted(a for a in spec_actions() if not rp.acts.get(a))
     if unt:
         raise Broken("vacuity: actions never taken: %s" % unt)
-    if not texts:
+    if not rp.nsid:
         raise Broken("no behaviours emitted")
+    if rp.nscripts != rp.nsid:
+        raise Broken("replayed %d scripts of %d behaviours" % (rp.nscripts, rp.nsid))
+    ctx.cov["replay"] = {"behaviours": rp.nsid, "scripts_run": rp.nscripts, "steps": rp.nsteps, "behaviours_conforming": rp.nsid - rp.nfailing,
+                         "behaviours_failing": rp.nfailing, "replay_cpu_wall_s": round(rp.wall, 1)}
+    ctx.add("traces_validated_against_impl", rp.nscripts)
+    ctx.add("evaluations", rp.nsteps)
+    ctx.cov["behaviours_by_family"] = rp.byfam
+    for want in ("fam=nest", "fam=chain", "fam=enum/rich", "fam=long", "fam=enum/base"):
+        if want in rp.samples:
+            tg, txt = rp.samples[want]
+            ctx.sample({"family": tg, "script": [ln[:200] for ln in txt.split("\n")[1:-2]][-4:]})
     asbuilt_demo(ctx)
     log("as-built demo done %.0fs" % (time.time() - ctx.t0))
-
-    t0 = time.time()
-    fails, _, ns, nt = run_scripts(exe, [], texts, ctx.rundir, jobs=4, tag="beh")
-    if ns != len(texts):
-        raise Broken("replayed %d scripts of %d behaviours" % (ns, len(texts)))
-    seen = {}
-    for f in fails:
-        key = fail_key(tags[f.sid - 1], f)
-        if key in seen:
-            if key in ctx.violations:
-                ctx.violations[key][2] += 1
-            continue
-        seen[key] = f
-        ctx.report(key, "%s at step %d (%s) exp=%s got=%s %s" % (f.kind, f.step, f.op, f.exp[:300], f.got[:300], f.sig),
-                   {"harness_args": [], "script_text": texts[f.sid - 1], "failure": repr(f), "detail": f.detail,
-                    "context_script_text": (texts[f.sid - 5] if f.sid > 4 else "") + texts[f.sid - 1]})
-    failed_sids = set(f.sid for f in fails)
-    ctx.cov["replay"] = {"behaviours": len(texts), "scripts_run": ns, "steps": nt, "behaviours_conforming": len(texts) - len(failed_sids),
-                         "behaviours_failing": len(failed_sids), "wall_s": round(time.time() - t0, 1)}
-    ctx.add("traces_validated_against_impl", ns)
-    ctx.add("evaluations", nt)
-    byfam = {}
-    for tg in tags:
-        k = tg.split(" ")[0]
-        byfam[k] = byfam.get(k, 0) + 1
-    ctx.cov["behaviours_by_family"] = byfam
-    for want in ("fam=nest", "fam=chain", "fam=enum/rich", "fam=long"):
-        for i, tg in enumerate(tags):
-            if tg.startswith(want):
-                s = texts[i]
-                ctx.sample({"family": tg, "script": [ln[:160] for ln in s.split("\n")[1:-2]][-3:]})
-                break
-    log("replay done %.0fs, %d failing" % (time.time() - ctx.t0, len(failed_sids)))
     trace_validation(ctx, exe)
     log("trace validation done %.0fs" % (time.time() - ctx.t0))
     ctx.cov["exhaustive"] = True
